@@ -262,4 +262,156 @@ example :
   · intro a ha; simp [pluck, pluckA, Factory.annotated, s0] at ha; subst ha; decide
   · intro a ha; simp [pluck, pluckA, Factory.annotated, f0] at ha
 
+/-! ### how tranp uses the container: one shared container, one combined container per module
+    (providers/app.py `di_container`, providers/syntax/entrypoints.py `handler`) -/
+
+/-- Sharing happens at combine time: an instance the left operand holds for a symbol the right operand does not know is
+    the instance the combined container returns — and the left operand keeps returning it too. This is the law
+    production relies on: `handler` resolves SyntaxParser / CacheProvider / SymbolMapping in the shared container
+    *before* `shared_di.combine(dependency_di)`. -/
+theorem combine_shares (fuel : Nat) (ops mid : List Op) (a b k x : Nat) (e : SEntry) (o : Obj) (f : Factory) (r : SymRef)
+    (hk : (step (fuel + 1) (run (fuel + 1) State.init ops).1 (.combine a b)).2 = .cont k)
+    (ha : look (abs (run (fuel + 1) State.init ops).1) a x = some e) (hl : e.lazy = false) (hi : e.inst = some o)
+    (hf : e.inj.load = .ok f) (hb : look (abs (run (fuel + 1) State.init ops).1) b x = none)
+    (hmid : ∀ op ∈ mid, touches k x op = false ∧ touches a x op = false) (hr : r.accept = x) :
+    (step (fuel + 1) (run (fuel + 1) (step (fuel + 1) (run (fuel + 1) State.init ops).1 (.combine a b)).1 mid).1
+      (.on k (.resolve r))).2 = .obj o ∧
+    (step (fuel + 1) (run (fuel + 1) (step (fuel + 1) (run (fuel + 1) State.init ops).1 (.combine a b)).1 mid).1
+      (.on a (.resolve r))).2 = .obj o := by
+  have w0 := reach_wf (fuel + 1) ops
+  have w1 := step_wf (fuel := fuel + 1) w0 (.combine a b)
+  have w2 := run_wf (fuel := fuel + 1) w1 mid
+  have hlk := combine_right (fuel + 1) ops a b k hk x
+  rw [ha, hb] at hlk
+  have hlt : a < (run (fuel + 1) State.init ops).1.conts.length := by
+    have := look_lt ha; rwa [abs_length] at this
+  have hla := (combine_frame (fuel + 1) ops (.combine a b) a hlt (by simp [Op.target])).2 x
+  rw [ha] at hla
+  rw [step_out w2, step_out w2, run_abs w1]
+  exact ⟨spec_inst_persists fuel _ mid k x e o f r hlk hl hi hf (fun op h => (hmid op h).1) hr,
+    spec_inst_persists fuel _ mid a x e o f r hla hl hi hf (fun op h => (hmid op h).2) hr⟩
+
+/-- ... and only then: two slots in different containers never come to hold the same instance unless they did already.
+    In particular an instance the shared container creates *after* the combine is not the one the combined container
+    creates for the same symbol (and vice versa), and module-local symbols get one instance per module container.
+    (Production does not rely on late sharing: the op log of real module loads resolves through a per-module container
+    only symbols that are module-local or were resolved in the shared container before — stream `di-production`.) -/
+theorem distinct_instances (fuel : Nat) (ops mid : List Op) (c1 c2 x1 x2 : Nat) (o1 o2 : Obj) (hne : c1 ≠ c2)
+    (h1 : c1 < (run fuel State.init ops).1.conts.length) (h2 : c2 < (run fuel State.init ops).1.conts.length)
+    (hempty : instOf (abs (run fuel State.init ops).1) c2 x2 = none)
+    (ho1 : instOf (abs (run fuel (run fuel State.init ops).1 mid).1) c1 x1 = some o1)
+    (ho2 : instOf (abs (run fuel (run fuel State.init ops).1 mid).1) c2 x2 = some o2) : o1.id ≠ o2.id := by
+  have w0 := reach_wf fuel ops
+  have hb : SpecB (abs (run fuel State.init ops).1) := by
+    rw [run_abs init_wf]; exact specRun_bounded fuel ops _ init_bounded
+  rw [run_abs w0] at ho1 ho2
+  exact specRun_distinct fuel mid _ c1 c2 x1 x2 hne (by rw [abs_length]; exact h1) (by rw [abs_length]; exact h2) hb
+    (fun o1 o2 _ h => by rw [hempty] at h; cases h) o1 o2 ho1 ho2
+
+/-- the link between observations and slots: what a successful resolve returns is what the slot holds afterwards -/
+theorem resolve_instOf (fuel : Nat) (ops : List Op) (c : Nat) (r : SymRef) (o : Obj)
+    (h : (step fuel (run fuel State.init ops).1 (.on c (.resolve r))).2 = .obj o) :
+    instOf (abs (step fuel (run fuel State.init ops).1 (.on c (.resolve r))).1) c r.accept = some o := by
+  have w0 := reach_wf fuel ops
+  rw [step_out w0] at h
+  rw [step_abs w0]
+  exact specStep_resolve_instOf fuel _ c r o h
+
+/-- Module-local symbols never leak: a symbol a container does not know stays unknown to it (can_resolve False, hence
+    ValueError by `unknown`) whatever is resolved, invoked, cloned or combined anywhere, until somebody binds it there.
+    The shared container never learns Entry / Query / NodeResolver / Entrypoint / ModulePath. -/
+theorem no_leak (fuel : Nat) (ops mid : List Op) (c x : Nat) (r : SymRef) (hr : r.accept = x)
+    (hc : c < (run fuel State.init ops).1.conts.length) (he : look (abs (run fuel State.init ops).1) c x = none)
+    (hmid : ∀ op ∈ mid, touches c x op = false) :
+    look (abs (run fuel (run fuel State.init ops).1 mid).1) c x = none ∧
+    (step fuel (run fuel (run fuel State.init ops).1 mid).1 (.on c (.can r))).2 = .bool false := by
+  have w0 := reach_wf fuel ops
+  have w1 := run_wf (fuel := fuel) w0 mid
+  have hn : look (abs (run fuel (run fuel State.init ops).1 mid).1) c x = none := by
+    rw [run_abs w0]
+    exact specRun_none fuel mid _ c x (by rw [abs_length]; exact hc) hmid he
+  refine ⟨hn, ?_⟩
+  rw [step_out w1]
+  simp only [specStep]
+  cases hk : (abs (run fuel (run fuel State.init ops).1 mid).1).conts[c]? with
+  | none =>
+    exfalso
+    have hlen := specRun_length_le fuel mid (abs (run fuel State.init ops).1)
+    rw [← run_abs w0] at hlen
+    have : c < (abs (run fuel (run fuel State.init ops).1 mid).1).conts.length := by
+      rw [abs_length] at hlen ⊢; rw [abs_length] at hlen; omega
+    rw [List.getElem?_eq_getElem this] at hk; cases hk
+  | some sc =>
+    have : sc.ents x = none := by simpa [look, hk] using hn
+    simp [sStepCont, SCont.canResolve, hr, this]
+
+theorem invokerFactory_inj (j k : Nat) (h : (invokerFactory j).fid = (invokerFactory k).fid) : j = k := by
+  simp only [invokerFactory] at h; omega
+
+/-- `Invoker` (and likewise `Locator`) resolved through a per-module container refers to that container, not to the
+    shared one: `handler` re-binds both to closures over `new_di` right after the combine, and whatever is resolved for a
+    symbol after a rebind was made by the new factory. (Without those two lines the module container would hand out
+    the shared container's `invoke` — `combine_shares` — and `invoker(Node, …)` would look module-local symbols up in
+    the shared container, which does not know them — `no_leak`.) -/
+theorem module_invoker_local (fuel : Nat) (pre mid : List Op) (R : Roles) (s n : Nat) (deps : List (Nat × Injector))
+    (mp : Factory) (r : SymRef) (o : Obj) (hr : r.accept = R.invoker) (hmp : R.modulePath ≠ R.invoker)
+    (hmid : ∀ op ∈ mid, touches (n + 1) R.invoker op = false)
+    (h0 : (step fuel (run fuel State.init (pre ++ R.preResolved.map (fun x => Op.on s (.resolve ⟨x, false⟩)) ++
+        [.newLazy deps, .combine s n, .on (n + 1) (.rebind ⟨R.locator, false⟩ (locatorFactory (n + 1)))])).1
+        (.on (n + 1) (.rebind ⟨R.invoker, false⟩ (invokerFactory (n + 1))))).2 = .ok)
+    (h : (step fuel (run fuel State.init (pre ++ loadModuleOps R s n deps mp ++ mid)).1 (.on (n + 1) (.resolve r))).2 = .obj o) :
+    o.fid = (invokerFactory (n + 1)).fid ∧ (s ≠ n + 1 → o.fid ≠ (invokerFactory s).fid) := by
+  have hsplit : pre ++ loadModuleOps R s n deps mp ++ mid =
+      (pre ++ R.preResolved.map (fun x => Op.on s (.resolve ⟨x, false⟩)) ++
+        [.newLazy deps, .combine s n, .on (n + 1) (.rebind ⟨R.locator, false⟩ (locatorFactory (n + 1)))]) ++
+      [.on (n + 1) (.rebind ⟨R.invoker, false⟩ (invokerFactory (n + 1)))] ++
+      ([.on (n + 1) (.bind ⟨R.modulePath, false⟩ mp), .on (n + 1) (.resolve ⟨R.entrypoint, false⟩)] ++ mid) := by
+    simp [loadModuleOps]
+  rw [hsplit, run_append, run_snoc] at h
+  have hmid' : ∀ op ∈ [Op.on (n + 1) (.bind ⟨R.modulePath, false⟩ mp), .on (n + 1) (.resolve ⟨R.entrypoint, false⟩)] ++ mid,
+      touches (n + 1) (SymRef.mk R.invoker false).accept op = false := by
+    intro op hop
+    simp only [List.cons_append, List.nil_append, List.mem_cons] at hop
+    rcases hop with rfl | rfl | hop
+    · simp [touches, SymRef.accept, hmp]
+    · rfl
+    · exact hmid op hop
+  obtain ⟨_, hfid⟩ := rebind_fresh fuel _ _ (n + 1) ⟨R.invoker, false⟩ r (invokerFactory (n + 1)) o hr hmid' h0 h
+  exact ⟨hfid, fun hs he => hs (invokerFactory_inj _ _ (by rw [← he, hfid])).symm⟩
+
+/-! a miniature of production: shared container with a parser (symbol 0, pre-resolved) and another shared symbol 5 that
+    is *not* pre-resolved; per-module dependencies Entry (1, needs ModulePath 12 and the parser), Query (2, needs Invoker
+    11 and Entry), Entrypoint (3, needs Query); two module loads -/
+
+def miniR : Roles := ⟨10, 11, 12, 3, [0]⟩
+def miniDefs : List (Nat × Injector) := [(0, .named 1 f0), (5, .named 2 f15)]
+def miniDeps : List (Nat × Injector) :=
+  [(1, .named 3 ⟨21, 21, [some ⟨12, false⟩, some ⟨0, false⟩]⟩), (2, .named 4 ⟨22, 22, [some ⟨11, false⟩, some ⟨1, false⟩]⟩),
+   (3, .named 5 ⟨23, 23, [some ⟨2, true⟩]⟩)]
+def miniOps : List Op :=
+  diContainerOps miniR 0 miniDefs ++ loadModuleOps miniR 0 1 miniDeps ⟨31, 31, []⟩ ++ loadModuleOps miniR 0 3 miniDeps ⟨32, 32, []⟩
+
+/-- two loads succeed; module containers are 2 and 4; both entrypoints are built from their own Query / Entry / Invoker -/
+example : (run 8 State.init miniOps).2 =
+    [.cont 0, .ok, .ok,
+     .obj ⟨0, 0, []⟩, .cont 1, .cont 2, .ok, .ok, .ok, .obj ⟨5, 23, [.inst 4]⟩,
+     .obj ⟨0, 0, []⟩, .cont 3, .cont 4, .ok, .ok, .ok, .obj ⟨10, 23, [.inst 9]⟩] := by decide
+
+/-- the pre-resolved parser is one object for the shared container and both modules; Entry is one object per module;
+    each module's Invoker closes over its own container; the shared container does not know Entry -/
+example :
+    let σ := (run 8 State.init miniOps).1
+    (step 8 σ (.on 2 (.resolve s0))).2 = .obj ⟨0, 0, []⟩ ∧ (step 8 σ (.on 4 (.resolve s0))).2 = .obj ⟨0, 0, []⟩ ∧
+    (step 8 σ (.on 2 (.resolve s1))).2 = .obj ⟨3, 21, [.inst 2, .inst 0]⟩ ∧
+    (step 8 σ (.on 4 (.resolve s1))).2 = .obj ⟨8, 21, [.inst 7, .inst 0]⟩ ∧
+    (step 8 σ (.on 2 (.resolve ⟨11, false⟩))).2 = .obj ⟨1, (invokerFactory 2).fid, []⟩ ∧
+    (step 8 σ (.on 4 (.resolve ⟨11, false⟩))).2 = .obj ⟨6, (invokerFactory 4).fid, []⟩ ∧
+    (step 8 σ (.on 0 (.can s1))).2 = .bool false := by decide
+
+/-- the law that does NOT hold (and that production does not use): shared symbol 5 is resolved first through module
+    container 2, then in the shared container, then through module container 4 — three different objects -/
+example :
+    (run 8 (run 8 State.init miniOps).1 [.on 2 (.resolve ⟨5, false⟩), .on 0 (.resolve ⟨5, false⟩), .on 4 (.resolve ⟨5, false⟩)]).2
+      = [.obj ⟨11, 15, []⟩, .obj ⟨12, 15, []⟩, .obj ⟨13, 15, []⟩] := by decide
+
 end Tranp.C19
